@@ -361,7 +361,7 @@ def run(tier, seed):
         mixed_max = mixed_table(drv)
         # i128/u128 vs isize/usize: Ty::max picks the pointer-sized type; keep them (truncation is modelled)
         mixed_pairs = sorted(mixed_max)
-        nprog = 48 if tier == "quick" else 1000
+        nprog = 48 if tier == "quick" else 500
         per = 200
         rng = fl.rng.fork("ops")
         # corpus first
